@@ -17,10 +17,10 @@ func init() {
 		ID:    "C10",
 		Level: "exploration",
 		Rule: "case = seeded history (1-60 ops) on a sketch with exact summary statistics over {Add, AddWithCount (incl. weight 0), rejected calls through Add, AddWithCount and Reweight (NaN, +-Inf, beyond the largest indexable value, negative weight, factor 0), MergeWith, DecodeAndMergeWith, Copy-continue, Clear, Reweight, ChangeMapping, Encode->Decode into any store kind} with values from the hostile value generator (plus adversarial sum sequences: 2^53 then many 1.0, alternating +-large, tiny after huge) and dyadic weights; " +
-			"after every event: GetCount exact, IsEmpty iff nothing with positive weight, GetMin/MaxValue bitwise the true extremes, GetSum within (16+8L)*2^-53*sum|v*w| of the exact sum (L = lossy events), every quantile == clamp(plain answer, min, max) and inside [min,max], bins equal to the model when defined. " +
+			"in 40% of the histories up to 3 copies stay alive as companions (they keep absorbing values, are reweighted and cleared, are merged into the sketch and receive it as merge argument; every oracle applies to each of them), 35% are quiet (queries only after every 2nd-12th event); after every (queried) event: GetCount exact, IsEmpty iff nothing with positive weight, GetMin/MaxValue bitwise the true extremes, GetSum within (16+8L)*2^-53*sum|v*w| of the exact sum (L = lossy events), every quantile == clamp(plain answer, min, max) and inside [min,max], bins equal to the model when defined. " +
 			"Non-trivial = history with >=1 merge-or-decode and >=1 of {Reweight, Clear, Copy, ChangeMapping}; distinct = hash of the history.",
 		Cases:     core.Scale(30000, 800000),
-		Mandatory: []string{"oracle.stat_checks", "oracle.sum_checks", "oracle.quantile_clamp_checks", "event.MergeWith", "event.DecodeAndMergeWith", "event.Reweight", "event.ChangeMapping", "event.Encode->Decode", "event.Copy->continue", "event.Clear", "adversarial_sum_cases", "adversarial_copy_chains", "zero_weight_adds", "event.rejected_call"},
+		Mandatory: []string{"oracle.stat_checks", "oracle.sum_checks", "oracle.quantile_clamp_checks", "event.MergeWith", "event.DecodeAndMergeWith", "event.Reweight", "event.ChangeMapping", "event.Encode->Decode", "event.Copy->continue", "event.Clear", "adversarial_sum_cases", "adversarial_copy_chains", "zero_weight_adds", "event.rejected_call", "histories_with_live_companions", "event.MergeWith(live companion)", "event.companion.MergeWith(sketch)", "quiet.histories"},
 		Assumptions: []string{
 			"dyadic weights under the exactness budget make the count exact; sum bound calibrated (DESIGN §3.6)",
 			"a ChangeMapping may round min/max like fl(extreme*factor)",
@@ -30,19 +30,19 @@ func init() {
 	core.Register(&core.Prop{
 		ID:    "C12",
 		Level: "exploration",
-		Rule: "case = seeded history (adds, weighted adds, merges, decodes, copies, clears, round trips) on either sketch variant over all 5 store kinds and all mapping kinds, with data shapes all-negative, all-zero, zero+negative, single value, sub-minimum only, mixed; after every event: count == zero + both sides (exact), IsEmpty iff count==0, min/max in the bin of the true (clamped for collapsing stores) extreme or 0, " +
+		Rule: "case = seeded history (adds, weighted adds, merges, decodes, copies, clears, round trips) on either sketch variant over all 5 store kinds and all mapping kinds, with data shapes all-negative, all-zero, zero+negative, single value, sub-minimum only, mixed; 40% of the histories with up to 3 live companions (copies that stay in use, merged with the sketch in both directions, every oracle applied to each), 35% quiet (queries only after every 2nd-12th event); after every (queried) event: count == zero + both sides (exact), IsEmpty iff count==0, min/max in the bin of the true (clamped for collapsing stores) extreme or 0, " +
 			"quantiles non-decreasing over a sorted q grid and within [min,max], batch == singles, same-signed data: |GetSum - true sum| <= (alpha+64u)|true sum|, ForEach yields each non-empty bin once with weight>0 summing exactly to count and stops after exactly min(k,#bins) calls. Non-trivial = special data shape or history with merge/decode; distinct = hash of the history.",
 		Cases:     core.Scale(60000, 1500000),
-		Mandatory: []string{"oracle.coherence_checks", "oracle.foreach_stop_checks", "oracle.sum_checks", "oracle.monotone_checks", "shape.neg", "shape.zeros", "shape.zeros+neg", "shape.single", "shape.submin", "oracle.extreme_checks.collapsed", "event.refused_call", "event.decode_zero_block"},
+		Mandatory: []string{"oracle.coherence_checks", "oracle.foreach_stop_checks", "oracle.sum_checks", "oracle.monotone_checks", "shape.neg", "shape.zeros", "shape.zeros+neg", "shape.single", "shape.submin", "oracle.extreme_checks.collapsed", "event.refused_call", "event.decode_zero_block", "histories_with_live_companions", "event.MergeWith(live companion)", "event.companion.MergeWith(sketch)", "quiet.histories"},
 		Run:       runC12,
 	})
 	core.Register(&core.Prop{
 		ID:    "C16",
 		Level: "exploration",
-		Rule: "case = sketch reached by a seeded history (both variants, all 5 store kinds, both signs), then Reweight(w) for dyadic-budgeted w in {a*2^k}: <1, =1, >1; oracle: every bin, the zero bucket and the count equal the model scaled by w exactly, exact sum within the bound, exact min/max bitwise unchanged, and the whole observation equals that of a second real sketch built by adding the same items with weights*w; " +
+		Rule: "case = sketch reached by a seeded history (both variants, all 5 store kinds, both signs), (40% with live companions: copies that stay in use, are reweighted on their own and merged with the sketch), then Reweight(w) for dyadic-budgeted w in {a*2^k}: <1, =1, >1; oracle: every bin, the zero bucket and the count equal the model scaled by w exactly, exact sum within the bound, exact min/max bitwise unchanged, and the whole observation equals that of a second real sketch built by adding the same items with weights*w; " +
 			"the hook shows paginated stores holding both buffered and paged indexes at the time of the call. Non-trivial = both sides non-empty and w != 1; distinct = hash of the history and w.",
 		Cases:     core.Scale(80000, 2000000),
-		Mandatory: []string{"oracle.reweight_checks", "oracle.rebuilt_twin_checks", "reweight.lt1", "reweight.gt1", "reweight.eq1", "reweight.near_one", "layout.reweight_with_buffer_and_pages", "reweight.both_sides"},
+		Mandatory: []string{"oracle.reweight_checks", "oracle.rebuilt_twin_checks", "reweight.lt1", "reweight.gt1", "reweight.eq1", "reweight.near_one", "layout.reweight_with_buffer_and_pages", "reweight.both_sides", "histories_with_live_companions", "oracle.companion_checks"},
 		Run:       runC16,
 	})
 }
@@ -181,6 +181,10 @@ func runC10(c *core.Ctx) {
 	h.exact = true
 	h.anySpec = true
 	h.weights[opChangeMapping] = 3
+	if r.P(0.4) {
+		h.withCompanions()
+		c.Count("histories_with_live_companions", 1)
+	}
 	adversarial := r.P(0.15)
 	if adversarial {
 		// adversarial sequences for the compensated sum
@@ -230,6 +234,12 @@ func runC10(c *core.Ctx) {
 		}
 	}
 	st := newSkState(c, "x", true, m, spec)
+	quiet := 0
+	if r.P(0.35) {
+		// quiet history: most events are not followed by any query
+		quiet = r.Range(2, 12)
+		c.Count("quiet.histories", 1)
+	}
 	c.Logf("exact sketch, mapping %s, store %s, pattern %s", m.Desc, spec, pattern)
 	c.SigS(m.Desc)
 	c.SigS(spec.String())
@@ -279,8 +289,10 @@ func runC10(c *core.Ctx) {
 				c.Failf("exact.rejected_call_accepted", "%s returned no error", what)
 			}
 		}
-		if (!adversarial && !soak) || i%97 == 0 || i == len(ops)-1 {
-			checkExactStats(c, st)
+		if (!adversarial && !soak && (quiet == 0 || i%quiet == 0)) || i%97 == 0 || i == len(ops)-1 {
+			for _, l := range st.live() {
+				checkExactStats(c, l)
+			}
 		}
 		if c.Failed() {
 			return
@@ -559,8 +571,17 @@ func runC12(c *core.Ctx) {
 	h.exact = exact
 	h.anySpec = true
 	h.weights[opReweight] = 2
+	if r.P(0.4) {
+		h.withCompanions()
+		c.Count("histories_with_live_companions", 1)
+	}
 	nOps := r.Range(1, 50)
 	checkEvery := 1
+	if r.P(0.35) {
+		// quiet history: most events are not followed by any query
+		checkEvery = r.Range(2, 12)
+		c.Count("quiet.histories", 1)
+	}
 	if c.Tier == "thorough" && c.Index%3000 == 5 {
 		// soak: one long history on one sketch, coherence evaluated at checkpoints
 		nOps = r.Range(5000, 20000)
@@ -634,7 +655,9 @@ func runC12(c *core.Ctx) {
 		if checkEvery > 1 && oi%checkEvery != 0 && oi != len(ops)-1 {
 			continue
 		}
-		checkCoherence(c, st)
+		for _, l := range st.live() {
+			checkCoherence(c, l)
+		}
 		if c.Failed() {
 			return
 		}
@@ -665,6 +688,11 @@ func runC16(c *core.Ctx) {
 	h.weights[opClear] = 1
 	h.weights[opRoundTrip] = 1
 	h.weights[opProtoRoundTrip] = 0
+	if r.P(0.4) {
+		h.withCompanions()
+		h.weights[opCompReweight] = 3
+		c.Count("histories_with_live_companions", 1)
+	}
 	if spec.Kind == gen.SPaginated {
 		// make sure both buffered unit entries and pages exist: many unit adds in few bins plus weighted adds
 		h.weights[opAdd] = 60
@@ -732,6 +760,11 @@ func runC16(c *core.Ctx) {
 	}
 	c.Count("oracle.reweight_checks", 1)
 	mon.CheckSketchBins(c, "reweight", st.s, st.mdl)
+	for _, l := range st.comps {
+		// copies that stayed in use (and were reweighted on their own) are not touched by this sketch's reweighting
+		c.Count("oracle.companion_checks", 1)
+		mon.CheckSketchBins(c, "companion_after_reweight", l.s, l.mdl)
+	}
 	if exact {
 		checkExactStats(c, st)
 		after := statsOf(st.mdl.Items)
